@@ -188,7 +188,42 @@ def transplant(region, real_text):
     inserts = {}  # char position in real_text -> list of (text, kind)
     moved = 0
     dropped = 0
+    # index of the body's opening brace among the template's executable tokens: annotations at or before it are the
+    # function header (requires / ensures) and are NEVER dropped
+    body_k = None
+    depth = 0
+    seen_fn = False
+    for idx, t in enumerate(e_toks):
+        if t == "fn":
+            seen_fn = True
+        if t in ("(", "["):
+            depth += 1
+        elif t in (")", "]"):
+            depth -= 1
+        elif t == "{" and depth == 0 and (seen_fn or region.kind != "fn"):
+            body_k = idx
+            break
+    LOOP_KW = ("invariant", "invariant_except_break", "decreases", "ensures")
+    drop_group_at = set()
     for (k, text, kind) in anns:
+        if kind != "line" or body_k is None or k <= body_k:
+            continue
+        m = re.match(r"\s*([A-Za-z_]+)", text)
+        first = m.group(1) if m else ""
+        if first.rstrip(",") in LOOP_KW:
+            # loop clauses sit between the loop head and its `{`: both must still be there, next to each other
+            ok = (k < ne and e_toks[k] == "{" and k in e2r and (k - 1) in e2r and e2r[k] == e2r[k - 1] + 1)
+            if not ok:
+                drop_group_at.add(k)
+    for (k, text, kind) in anns:
+        if kind == "line" and body_k is not None and k > body_k:
+            if k in drop_group_at and (k < ne and e_toks[k] == "{"):
+                dropped += 1
+                continue
+            # an annotation whose two neighbouring tokens both vanished belongs to code that no longer exists
+            if 0 < k < ne and (k - 1) not in e2r and k not in e2r:
+                dropped += 1
+                continue
         if kind == "inline":
             # an inline annotation (type ascription, binder, named return) only makes sense between the two tokens it
             # was written between; if that spot no longer exists in the real text it is dropped, never moved
@@ -243,7 +278,7 @@ def transplant(region, real_text):
         last = pos
     out.append(real_text[last:])
     changed = sum(1 for tag, *_ in sm.get_opcodes() if tag != "equal")
-    return "".join(out), {"template_tokens": ne, "real_tokens": len(r_norm), "diff_hunks": changed, "annotations_moved": moved, "inline_annotations_dropped": dropped}
+    return "".join(out), {"template_tokens": ne, "real_tokens": len(r_norm), "diff_hunks": changed, "annotations_moved": moved, "annotations_dropped": dropped}
 
 
 def erase(emitted):
